@@ -5,6 +5,10 @@ import RefurbVerif.Model.Visitor
 import RefurbVerif.Lemmas.Sort
 import RefurbVerif.Lemmas.Order
 import RefurbVerif.Generated.Locality
+import RefurbVerif.Lemmas.Run
+import RefurbVerif.Props.C08
+import RefurbVerif.Props.C11
+import RefurbVerif.Props.C13
 
 namespace RefurbVerif.C10
 open RefurbVerif
@@ -134,5 +138,769 @@ example : OwnCode chkA := by
   · simp at hd; subst hd; rfl
 
 example : (visitAll [chkA, chkB] [("X", 1), ("X", 1), ("Y", 2)]).length = 5 := by decide
+
+end RefurbVerif.C10
+
+/-! ## The whole run: `refurb.main.main()` as one function (Model/Run.lean)
+
+The component theorems (C08 `filter_exact`, C09 ladder, C10 `selection_is_filter`, C11 `perm_files_same_general`,
+C13 `same_items_same_order`) lifted through the composition `runMain`, down to the text on stdout and the exit
+status — for any number of files, diagnostics and checks. -/
+
+namespace RefurbVerif.C10
+open RefurbVerif RefurbVerif.Run
+
+/-- forget the file name of a diagnostic the visitor produced (it is stamped afterwards, main.py:220) -/
+def toRaw (d : Diag) : RawDiag := { line := d.line, col := d.col, pfx := d.pfx, code := d.code, msg := d.msg }
+
+/-- **Why the raw diagnostics may be data.**  The whole-run model keeps, of the diagnostics ALL checks produce, those
+    of the loaded checks.  For checks that only report their own code (`OwnCode`; today's modules:
+    `own_error_class_only`) that is exactly what the visitor produces when only the loaded checks run — whatever
+    private state the checks keep, for any number of nodes (`visitAll_select`). -/
+theorem raw_of_loaded_is_visitor (s : Settings) (cat : List CheckSel) (cs : List CheckM)
+    (visits : List (String × Nat)) (h : ∀ c ∈ cs, OwnCode c) :
+    ((visitAll cs visits).map toRaw).filter (fun r => selected s cat r.pfx r.code)
+      = (visitAll (selChecks (fun k => selected s cat k.1 k.2) cs) visits).map toRaw := by
+  rw [visitAll_select _ visits cs h, List.filter_map]
+  rfl
+
+/-! ### (a) selection is a filter, down to the output -/
+
+/-- the item is a plain line, or a diagnostic of a check that `s` loads -/
+def itemLoaded (s : Settings) (cat : List CheckSel) : Item → Bool
+  | .diag d => selected s cat d.pfx d.code
+  | .text _ => true
+
+/-- two settings that differ at most in the selection options (`enable`, `disable`, `enable_all`, `disable_all`,
+    path-less `ignore` entries) and in `--verbose` -/
+structure SameButSelection (s₁ s₂ : Settings) : Prop where
+  debug : s₁.debug = s₂.debug
+  quiet : s₁.quiet = s₂.quiet
+  format : s₁.format = s₂.format
+  sortBy : s₁.sortBy = s₂.sortBy
+  color : s₁.color = s₂.color
+  help : s₁.help = s₂.help
+  version : s₁.version = s₂.version
+  generate : s₁.generate = s₂.generate
+  explain : s₁.explain = s₂.explain
+  configFile : s₁.configFile = s₂.configFile
+  /-- the amend tables (entries that carry a path) are the same -/
+  amendEntries : s₁.ignore.filter (fun e => e.path.isSome) = s₂.ignore.filter (fun e => e.path.isSome)
+
+theorem any_filter_of_imp {α : Type} (f p : α → Bool) (l : List α) (h : ∀ x, f x = true → p x = true) :
+    l.any f = (l.filter p).any f := by
+  rw [List.any_filter]
+  apply List.any_congr rfl
+  intro a
+  cases hf : f a with
+  | false => simp
+  | true => simp [h a hf]
+
+theorem entryHits_pathless (R : Paths.Resolver) (root : Paths.PPath) (file : List String) (d : Paths.AmendDiag)
+    (e : Clsf) (h : Paths.entryHits R root file d e = true) : e.path.isSome = true := by
+  unfold Paths.entryHits Paths.entryPath at h
+  cases hp : e.path with
+  | none => simp [hp] at h
+  | some q => rfl
+
+/-- the amend verdict only reads the config file location and the path-carrying `ignore` entries -/
+theorem amendB_congr (R : Paths.Resolver) (s₁ s₂ : Settings) (cat : List CheckSel)
+    (hc : s₁.configFile = s₂.configFile)
+    (hs : s₁.ignore.filter (fun e => e.path.isSome) = s₂.ignore.filter (fun e => e.path.isSome)) :
+    amendB R s₁ cat = amendB R s₂ cat := by
+  funext d
+  unfold amendB Paths.ignoredViaAmend
+  cases R (Paths.parsePath (amendDiag cat d).file) with
+  | none => rfl
+  | some file =>
+    simp only
+    rw [any_filter_of_imp _ (fun e => e.path.isSome) s₁.ignore (entryHits_pathless R _ file _),
+      any_filter_of_imp _ (fun e => e.path.isSome) s₂.ignore (entryHits_pathless R _ file _), hs, hc]
+
+theorem selected_mono (s₁ s₂ : Settings) (cat : List CheckSel)
+    (hsub : ∀ c ∈ cat, shouldLoad s₁ c = true → shouldLoad s₂ c = true) (p : Str) (n : Nat)
+    (h : selected s₁ cat p n = true) : selected s₂ cat p n = true := by
+  unfold selected at h ⊢
+  rw [List.any_eq_true] at h ⊢
+  obtain ⟨c, hc, hx⟩ := h
+  rw [Bool.and_eq_true] at hx
+  exact ⟨c, hc, by rw [Bool.and_eq_true]; exact ⟨hx.1, hsub c hc hx.2⟩⟩
+
+/-- what the visiting loop collects with fewer checks loaded is what it collects with more, restricted -/
+theorem collected_selection (s₁ s₂ : Settings) (cat : List CheckSel) (files : List FileIn)
+    (hd : s₁.debug = s₂.debug) (hsub : ∀ c ∈ cat, shouldLoad s₁ c = true → shouldLoad s₂ c = true) :
+    collected s₁ cat files = (collected s₂ cat files).filter (itemLoaded s₁ cat) := by
+  unfold collected
+  rw [List.filter_flatMap]
+  congr 1
+  funext f
+  unfold fileItems
+  rw [List.filter_append, List.filter_map, List.filter_filter, hd]
+  congr 1
+  · cases s₂.debug <;> simp [List.filter_cons, itemLoaded]
+  · congr 1
+    apply List.filter_congr
+    intro r _
+    simp only [Function.comp, itemLoaded, stamp]
+    cases h : selected s₁ cat r.pfx r.code with
+    | false => simp
+    | true => simp [selected_mono s₁ s₂ cat hsub r.pfx r.code h]
+
+theorem sortByOf_congr (s₁ s₂ : Settings) (h : s₁.sortBy = s₂.sortBy) : sortByOf s₁ = sortByOf s₂ := by
+  unfold sortByOf; rw [h]
+
+theorem formatOf_congr (s₁ s₂ : Settings) (h : s₁.format = s₂.format) (hc : s₁.color = s₂.color) :
+    formatOf s₁ = formatOf s₂ := by
+  unfold formatOf; rw [h, hc]
+
+/-- **(a) Selection is a filter of the whole run.**  Two runs on the same files that differ only in their selection
+    options, the first loading a subset of the checks of the second: what `run_refurb` returns for the first is
+    what it returns for the second, restricted to the diagnostics of the checks the first loads — same order, same
+    texts, for either `--sort`, with `# noqa` comments and amend tables in force. -/
+theorem run_selection_is_filter (i : RunInput) (s₁ s₂ : Settings) (items₂ : List Item)
+    (hs : SameButSelection s₁ s₂)
+    (hsub : ∀ c ∈ i.checks, shouldLoad s₁ c = true → shouldLoad s₂ c = true)
+    (h₂ : runRefurb i s₂ = some items₂) :
+    runRefurb i s₁ = some (items₂.filter (itemLoaded s₁ i.checks)) := by
+  unfold runRefurb at h₂ ⊢
+  cases hm : i.mypy with
+  | failed lines =>
+    simp only [hm, Option.some.injEq] at h₂ ⊢
+    subst h₂
+    symm
+    apply List.filter_eq_self.mpr
+    intro it hit
+    obtain ⟨l, _, rfl⟩ := List.mem_map.mp hit
+    rfl
+  | built files =>
+    simp only [hm] at h₂ ⊢
+    rw [sortByOf_congr s₁ s₂ hs.sortBy, amendB_congr i.resolver s₁ s₂ i.checks hs.configFile hs.amendEntries,
+      collected_selection s₁ s₂ i.checks files hs.debug hsub]
+    exact runReport_filter _ _ _ _ _ _ _ h₂
+
+theorem body_congr (i : RunInput) (s₁ s₂ : Settings) (hs : SameButSelection s₁ s₂) (items : List Item) :
+    body i s₁ items = body i s₂ items := by
+  unfold body; rw [formatOf_congr s₁ s₂ hs.format hs.color, hs.quiet]
+
+theorem loadFailure_none (i : RunInput) (hl : i.loadError = none) : loadFailure i = none := by
+  unfold loadFailure; cases i.mypy <;> simp [hl]
+
+/-- a lint run that gets as far as printing: no early exit, checks load, the `# noqa` lookup does not raise -/
+theorem runWith_printed (i : RunInput) (s : Settings) (items : List Item)
+    (hh : s.help = false) (hv : s.version = false) (hg : s.generate = false) (he : s.explain = none)
+    (hl : i.loadError = none) (h : runRefurb i s = some items) :
+    runWith i s = .printed (preambleOf i s ++ body i s items) (exitStatus items) := by
+  unfold runWith
+  simp only [hh, hv, hg, he, loadFailure_none i hl, h, Bool.false_eq_true, ↓reduceIte, Option.isSome_none]
+
+theorem runWith_printed_inv (i : RunInput) (s : Settings) (out : Str) (e : Nat) (hl : i.loadError = none)
+    (h : runWith i s = .printed out e) :
+    s.help = false ∧ s.version = false ∧ s.generate = false ∧ s.explain = none ∧
+      ∃ items, runRefurb i s = some items ∧ out = preambleOf i s ++ body i s items ∧ e = exitStatus items := by
+  unfold runWith at h
+  cases hh : s.help <;> simp only [hh, ↓reduceIte, Bool.false_eq_true, reduceCtorEq] at h
+  cases hv : s.version <;> simp only [hv, ↓reduceIte, Bool.false_eq_true, reduceCtorEq] at h
+  cases hg : s.generate <;> simp only [hg, ↓reduceIte, Bool.false_eq_true, reduceCtorEq] at h
+  cases he : s.explain with
+  | some x => simp [he] at h
+  | none =>
+    simp only [he, Option.isSome_none, Bool.false_eq_true, ↓reduceIte, loadFailure_none i hl] at h
+    refine ⟨rfl, rfl, rfl, rfl, ?_⟩
+    cases hr : runRefurb i s with
+    | none => simp [hr] at h
+    | some items =>
+      refine ⟨items, rfl, ?_⟩
+      simp only [hr, Outcome.printed.injEq] at h
+      exact ⟨h.1.symm, h.2.symm⟩
+
+/-- **(a), on stdout.**  If the run with more checks prints `out₂` and exits with `e₂`, then `out₂` is the rendering
+    of some item list, and the run with fewer checks prints the rendering (same format, same hint rule) of that
+    list restricted to its loaded checks, after its own `--verbose` listing, and exits with the status of the
+    restricted list. -/
+theorem run_selection_output (i : RunInput) (s₁ s₂ : Settings) (hs : SameButSelection s₁ s₂)
+    (hsub : ∀ c ∈ i.checks, shouldLoad s₁ c = true → shouldLoad s₂ c = true) (hl : i.loadError = none)
+    (out₂ : Str) (e₂ : Nat) (h₂ : runWith i s₂ = .printed out₂ e₂) :
+    ∃ items₂, runRefurb i s₂ = some items₂ ∧ out₂ = preambleOf i s₂ ++ body i s₂ items₂ ∧ e₂ = exitStatus items₂ ∧
+      runWith i s₁ = .printed (preambleOf i s₁ ++ body i s₂ (items₂.filter (itemLoaded s₁ i.checks)))
+        (exitStatus (items₂.filter (itemLoaded s₁ i.checks))) := by
+  obtain ⟨hh, hv, hg, he, items₂, hr, ho, hx⟩ := runWith_printed_inv i s₂ out₂ e₂ hl h₂
+  refine ⟨items₂, hr, ho, hx, ?_⟩
+  rw [← body_congr i s₁ s₂ hs]
+  exact runWith_printed i s₁ _ (hs.help.trans hh) (hs.version.trans hv) (hs.generate.trans hg) (hs.explain.trans he) hl
+    (run_selection_is_filter i s₁ s₂ items₂ hs hsub hr)
+
+/-- **(a), line by line** (`--quiet`, every rendered item on one line — C13 `plain_one_line`/`github_one_line`):
+    the lines printed by the larger run are the renderings of its items, one per line and in order; the lines
+    printed by the smaller run are the renderings of the items of its loaded checks, in the same relative order. -/
+theorem run_selection_lines (i : RunInput) (s₁ s₂ : Settings) (hs : SameButSelection s₁ s₂) (items₂ : List Item)
+    (hnl : ∀ it ∈ items₂, C13.NoNl (formatItem (formatOf s₂) (relOf (filesOf i.mypy)) it))
+    (hne : items₂.filter (itemLoaded s₁ i.checks) ≠ []) :
+    splitAt '\n' (formatErrors (formatOf s₂) (relOf (filesOf i.mypy)) true items₂)
+        = items₂.map (formatItem (formatOf s₂) (relOf (filesOf i.mypy))) ∧
+    splitAt '\n' (formatErrors (formatOf s₁) (relOf (filesOf i.mypy)) true (items₂.filter (itemLoaded s₁ i.checks)))
+        = (items₂.filter (itemLoaded s₁ i.checks)).map (formatItem (formatOf s₂) (relOf (filesOf i.mypy))) := by
+  have hne₂ : items₂ ≠ [] := by
+    intro h; rw [h] at hne; exact hne rfl
+  refine ⟨C13.same_items_same_order _ _ items₂ hne₂ hnl, ?_⟩
+  rw [formatOf_congr s₁ s₂ hs.format hs.color]
+  exact C13.same_items_same_order _ _ _ hne (fun it hit => hnl it (List.mem_filter.mp hit).1)
+
+/-! ### (b) `--ignore CODE` = the check does not exist -/
+
+/-- `--ignore PFXnnn` given last (`Arg.ignore`, `step`) -/
+def ignoreCode (s : Settings) (p : String) (n : Nat) : Settings :=
+  { s with ignore := s.ignore ++ [{ cls := .code p n }] }
+
+def notCode (p : String) (n : Nat) (pfx : Str) (code : Nat) : Bool := !(pfx == p.toList && code == n)
+
+/-- the run in a world where no check with this prefix+code was ever written: neither in the catalogue nor among
+    the raw diagnostics -/
+def dropRaw (p : String) (n : Nat) (f : FileIn) : FileIn :=
+  { f with raw := f.raw.filter (fun r => notCode p n r.pfx r.code) }
+
+def dropCode (p : String) (n : Nat) (i : RunInput) : RunInput :=
+  { i with
+    checks := i.checks.filter (fun c => !ownedBy c p.toList n)
+    mypy := match i.mypy with
+      | .built fs => .built (fs.map (dropRaw p n))
+      | .failed l => .failed l }
+
+theorem ownedBy_iff (c : CheckSel) (p : String) (n : Nat) : ownedBy c p.toList n = true ↔ c.pfx = p ∧ c.code = n := by
+  simp [ownedBy, String.toList_inj]
+
+theorem shouldLoad_ignoreCode (s : Settings) (p : String) (n : Nat) (c : CheckSel) :
+    shouldLoad (ignoreCode s p n) c = (!ownedBy c p.toList n && shouldLoad s c) := by
+  have hcls : (c.cls == ({ cls := .code p n } : Clsf)) = ownedBy c p.toList n := by
+    rw [Bool.eq_iff_iff, ownedBy_iff]
+    simp [CheckSel.cls]
+  have hcat : ∀ l : List Clsf, c.catClsfs.any (fun x => (l ++ [({ cls := .code p n } : Clsf)]).contains x)
+      = c.catClsfs.any (fun x => l.contains x) := by
+    intro l
+    unfold CheckSel.catClsfs
+    rw [List.any_map, List.any_map]
+    apply List.any_congr rfl
+    intro nm
+    simp [List.contains_append]
+  have hone : [({ cls := .code p n } : Clsf)].contains c.cls = ownedBy c p.toList n := by
+    rw [List.contains_cons, List.contains_nil, Bool.or_false, hcls]
+  have hig : ignoredB (ignoreCode s p n) c = (ignoredB s c || ownedBy c p.toList n) := by
+    show ((s.ignore ++ [({ cls := .code p n } : Clsf)]).contains c.cls
+        || c.catClsfs.any (fun x => (s.ignore ++ [({ cls := .code p n } : Clsf)]).contains x)) = _
+    rw [hcat, List.contains_append, hone]
+    unfold ignoredB
+    cases s.ignore.contains c.cls <;> cases ownedBy c p.toList n <;> simp
+  unfold shouldLoad
+  rw [hig]
+  cases ignoredB s c <;> cases ownedBy c p.toList n <;> simp [ignoreCode]
+
+theorem selected_ignoreCode (s : Settings) (p : String) (n : Nat) (cat : List CheckSel) (pfx : Str) (code : Nat) :
+    selected (ignoreCode s p n) cat pfx code
+      = (notCode p n pfx code && selected s (cat.filter (fun c => !ownedBy c p.toList n)) pfx code) := by
+  unfold selected
+  rw [List.any_filter]
+  cases hn : notCode p n pfx code with
+  | true =>
+    simp only [Bool.true_and]
+    apply List.any_congr rfl
+    intro c
+    rw [shouldLoad_ignoreCode]
+    cases ownedBy c pfx code <;> cases ownedBy c p.toList n <;> simp
+  | false =>
+    simp only [Bool.false_and]
+    rw [List.any_eq_false]
+    intro c _
+    rw [shouldLoad_ignoreCode]
+    simp only [notCode, Bool.not_eq_false', Bool.and_eq_true, beq_iff_eq] at hn
+    have : ownedBy c pfx code = ownedBy c p.toList n := by simp [ownedBy, hn.1, hn.2]
+    rw [this]
+    cases ownedBy c p.toList n <;> simp
+
+theorem categoriesOf_dropCode (p : String) (n : Nat) (cat : List CheckSel) (pfx : Str) (code : Nat)
+    (h : notCode p n pfx code = true) :
+    categoriesOf (cat.filter (fun c => !ownedBy c p.toList n)) pfx code = categoriesOf cat pfx code := by
+  unfold categoriesOf
+  rw [List.find?_filter]
+  have hfun : (fun a => decide ((!ownedBy a p.toList n) = true ∧ ownedBy a pfx code = true))
+      = (fun c => ownedBy c pfx code) := by
+    funext c
+    simp only [notCode, Bool.not_eq_true', Bool.and_eq_false_iff, beq_eq_false_iff_ne] at h
+    cases ho : ownedBy c pfx code with
+    | false => simp
+    | true =>
+      simp only [ownedBy, Bool.and_eq_true, beq_iff_eq] at ho
+      have : ownedBy c p.toList n = false := by
+        simp only [ownedBy, Bool.and_eq_false_iff, beq_eq_false_iff_ne]
+        rcases h with h | h
+        · left; rw [ho.1]; exact h
+        · right; rw [ho.2]; exact h
+      simp [this]
+  rw [hfun]
+
+/-- a path-less `ignore` entry never takes part in an amend verdict; dropping other checks from the catalogue does
+    not change the categories of this one -/
+theorem amendB_ignoreCode (R : Paths.Resolver) (s : Settings) (p : String) (n : Nat) (cat : List CheckSel) (d : Diag)
+    (h : notCode p n d.pfx d.code = true) :
+    amendB R (ignoreCode s p n) cat d = amendB R s (cat.filter (fun c => !ownedBy c p.toList n)) d := by
+  have had : amendDiag (cat.filter (fun c => !ownedBy c p.toList n)) d = amendDiag cat d := by
+    unfold amendDiag; rw [categoriesOf_dropCode p n cat d.pfx d.code h]
+  unfold amendB Paths.ignoredViaAmend
+  rw [had]
+  cases R (Paths.parsePath (amendDiag cat d).file) with
+  | none => rfl
+  | some file =>
+    simp only [ignoreCode, List.any_append, List.any_cons, List.any_nil, Bool.or_false]
+    have : Paths.entryHits R (Paths.configRoot s.configFile) file (amendDiag cat d) ({ cls := .code p n } : Clsf) = false := by
+      simp [Paths.entryHits, Paths.entryPath]
+    rw [this, Bool.or_false]
+
+theorem collected_ignoreCode (s : Settings) (p : String) (n : Nat) (cat : List CheckSel) (files : List FileIn) :
+    collected (ignoreCode s p n) cat files
+      = collected s (cat.filter (fun c => !ownedBy c p.toList n)) (files.map (dropRaw p n)) := by
+  unfold collected
+  rw [List.flatMap_map]
+  congr 1
+  funext f
+  unfold fileItems dropRaw
+  simp only [List.filter_filter]
+  congr 2
+  apply List.filter_congr
+  intro r _
+  rw [selected_ignoreCode, Bool.and_comm]
+
+theorem collected_notCode (s : Settings) (p : String) (n : Nat) (cat : List CheckSel) (files : List FileIn) (d : Diag)
+    (h : Item.diag d ∈ collected (ignoreCode s p n) cat files) : notCode p n d.pfx d.code = true := by
+  unfold collected at h
+  obtain ⟨f, _, hf⟩ := List.mem_flatMap.mp h
+  unfold fileItems at hf
+  rcases List.mem_append.mp hf with hf | hf
+  · cases (ignoreCode s p n).debug <;> simp at hf
+  · obtain ⟨r, hr, hd⟩ := List.mem_map.mp hf
+    have hsel := (List.mem_filter.mp hr).2
+    rw [selected_ignoreCode, Bool.and_eq_true] at hsel
+    cases hd
+    exact hsel.1
+
+theorem enabledCodes_ignoreCode (s : Settings) (p : String) (n : Nat) (cat : List CheckSel) :
+    enabledCodes (ignoreCode s p n) cat = enabledCodes s (cat.filter (fun c => !ownedBy c p.toList n)) := by
+  unfold enabledCodes
+  rw [List.filter_filter]
+  congr 3
+  apply List.filter_congr
+  intro c _
+  rw [shouldLoad_ignoreCode, Bool.and_comm]
+
+/-- **(b) `--ignore CODE` and never loading CODE are the same run**: same stdout (including the `--verbose`
+    listing), same exit status, same failure — an ignored check leaves no trace in the report, and ignoring it does
+    not disturb any other diagnostic, `# noqa` comment or amend table. -/
+theorem run_ignore_equals_never_loaded (i : RunInput) (s : Settings) (p : String) (n : Nat) :
+    runWith i (ignoreCode s p n) = runWith (dropCode p n i) s := by
+  have hpre : preambleOf i (ignoreCode s p n) = preambleOf (dropCode p n i) s := by
+    unfold preambleOf dropCode
+    cases i.mypy with
+    | failed lines => rfl
+    | built files =>
+      simp only
+      unfold preamble
+      rw [enabledCodes_ignoreCode]
+      rfl
+  have hrun : runRefurb i (ignoreCode s p n) = runRefurb (dropCode p n i) s := by
+    unfold runRefurb dropCode
+    cases i.mypy with
+    | failed lines => rfl
+    | built files =>
+      simp only
+      rw [srcOf_map files (dropRaw p n) (fun _ => rfl) (fun _ => rfl), ← collected_ignoreCode]
+      exact runReport_congr _ _ _ _ _ _ _ (fun _ _ => rfl)
+        (fun d hd => amendB_ignoreCode i.resolver s p n i.checks d (collected_notCode s p n i.checks files d hd))
+  have hbody : ∀ items, body i (ignoreCode s p n) items = body (dropCode p n i) s items := by
+    intro items
+    unfold body dropCode
+    cases i.mypy with
+    | failed lines => rfl
+    | built files =>
+      simp only [filesOf]
+      rw [relOf_map files (dropRaw p n) (fun _ => rfl) (fun _ => rfl)]
+      rfl
+  have hlf : loadFailure (dropCode p n i) = loadFailure i := by
+    unfold loadFailure dropCode
+    cases i.mypy <;> rfl
+  unfold runWith
+  rw [hrun, hpre, hlf]
+  simp only [hbody]
+  rfl
+
+/-! ### (c) exit status -/
+
+theorem exitStatus_cases (items : List Item) :
+    (items = [] ∧ exitStatus items = 0) ∨ (∃ it rest, items = it :: rest ∧ exitStatus items = 1) := by
+  cases items with
+  | nil => exact Or.inl ⟨rfl, rfl⟩
+  | cons it rest => exact Or.inr ⟨it, rest, rfl, rfl⟩
+
+/-- without `--debug` everything a successful build contributes is a diagnostic -/
+theorem run_items_are_diags (i : RunInput) (s : Settings) (files : List FileIn) (items : List Item)
+    (hb : i.mypy = .built files) (hd : s.debug = false) (h : runRefurb i s = some items) :
+    ∀ it ∈ items, it.isDiag = true := by
+  unfold runRefurb runReport at h
+  simp only [hb] at h
+  cases hn : noqaFilter i.lineCfg (srcOf files) (amendB i.resolver s i.checks) (collected s i.checks files) with
+  | none => simp [hn] at h
+  | some kept =>
+    simp only [hn, Option.map_some, Option.some.injEq] at h
+    subst h
+    intro it hit
+    rw [mem_ssort] at hit
+    obtain ⟨_, rfl⟩ := noqaFilter_some _ _ _ _ _ hn
+    have hmem := (List.mem_filter.mp hit).1
+    unfold collected at hmem
+    obtain ⟨f, _, hf⟩ := List.mem_flatMap.mp hmem
+    unfold fileItems at hf
+    simp only [hd, Bool.false_eq_true, ↓reduceIte, List.nil_append] at hf
+    obtain ⟨r, _, rfl⟩ := List.mem_map.mp hf
+    rfl
+
+/-- **(c) Exit status of a lint run** (files built, no `--debug`): the process exits with 0 or 1; with 0 it has
+    printed nothing but the `--verbose` listing (nothing at all without `--verbose`); with 1 its report starts with
+    a diagnostic line — so the exit status is 1 exactly when at least one diagnostic is printed. -/
+theorem run_exit_status (i : RunInput) (s : Settings) (files : List FileIn) (out : Str) (e : Nat)
+    (hb : i.mypy = .built files) (hd : s.debug = false) (hl : i.loadError = none)
+    (h : runWith i s = .printed out e) :
+    (e = 0 ∧ runRefurb i s = some [] ∧ out = preambleOf i s) ∨
+    (e = 1 ∧ ∃ d rest, runRefurb i s = some (.diag d :: rest) ∧
+      formatErrors (formatOf s) (relOf files) s.quiet (.diag d :: rest) ≠ [] ∧
+      out = preambleOf i s ++ (formatErrors (formatOf s) (relOf files) s.quiet (.diag d :: rest) ++ ['\n'])) := by
+  obtain ⟨_, _, _, _, items, hr, ho, hx⟩ := runWith_printed_inv i s out e hl h
+  rcases exitStatus_cases items with ⟨rfl, h0⟩ | ⟨it, rest, rfl, h1⟩
+  · left
+    refine ⟨hx.trans h0, hr, ?_⟩
+    rw [ho]
+    simp [body, printed, formatErrors_nil]
+  · right
+    have hdiag := run_items_are_diags i s files _ hb hd hr it (by simp)
+    cases it with
+    | text t => cases hdiag
+    | diag d =>
+      have hne := formatErrors_ne_nil (formatOf s) (relOf files) s.quiet d rest
+      refine ⟨hx.trans h1, d, rest, hr, hne, ?_⟩
+      rw [ho]
+      have hem : (formatErrors (formatOf s) (relOf files) s.quiet (.diag d :: rest)).isEmpty = false := by
+        cases hfe : formatErrors (formatOf s) (relOf files) s.quiet (.diag d :: rest) with
+        | nil => exact absurd hfe hne
+        | cons _ _ => rfl
+      simp only [body, printed, hb, filesOf, hem, Bool.false_eq_true, ↓reduceIte]
+
+/-- **(c) …of a run mypy refused** (missing file, syntax error): exit status 1 iff mypy gave at least one line;
+    the lines are printed as they came (not sorted, not filtered, no hint, no `--verbose` listing). -/
+theorem run_exit_status_failed (i : RunInput) (s : Settings) (lines : List Str) (out : Str) (e : Nat)
+    (hb : i.mypy = .failed lines) (h : runWith i s = .printed out e) :
+    runRefurb i s = some (lines.map Item.text) ∧ (e = if lines = [] then 0 else 1) ∧
+      out = printed (joinLines ((lines.map Item.text).map (formatItem (formatOf s) (relOf [])))) := by
+  have hr : runRefurb i s = some (lines.map Item.text) := by simp [runRefurb, hb]
+  have hlf : loadFailure i = none := by simp [loadFailure, hb]
+  unfold runWith at h
+  rw [hlf, hr] at h
+  refine ⟨hr, ?_⟩
+  cases hh : s.help <;> simp only [hh, ↓reduceIte, Bool.false_eq_true, reduceCtorEq] at h
+  cases hv : s.version <;> simp only [hv, ↓reduceIte, Bool.false_eq_true, reduceCtorEq] at h
+  cases hg : s.generate <;> simp only [hg, ↓reduceIte, Bool.false_eq_true, reduceCtorEq] at h
+  cases he : s.explain with
+  | some x => simp [he] at h
+  | none =>
+    simp only [he, Option.isSome_none, Bool.false_eq_true, ↓reduceIte, Outcome.printed.injEq] at h
+    obtain ⟨ho, hx⟩ := h
+    constructor
+    · rw [← hx]; cases lines <;> simp [exitStatus]
+    · rw [← ho]
+      have hnohint : hintShown s.quiet (lines.map Item.text) = false := by
+        simp [hintShown, Item.isDiag]
+      simp [preambleOf, hb, body, filesOf, formatErrors, hnohint]
+
+/-- **(c) …of a run whose settings do not load**: the one `refurb: …` line, exit status 1. -/
+theorem run_exit_status_settings_error (i : RunInput) (m : String)
+    (h : loadSettings i.envColor i.argv i.config = .error (.refurb m)) :
+    runMain i = (m.toList ++ ['\n'], 1) := by
+  simp [runMain, run, h, Outcome.result]
+
+/-- the exit status is never anything but 0 or 1 -/
+theorem run_exit_zero_or_one (i : RunInput) : (runMain i).2 = 0 ∨ (runMain i).2 = 1 := by
+  unfold runMain run
+  cases loadSettings i.envColor i.argv i.config with
+  | error err => cases err <;> simp [Outcome.result]
+  | ok s =>
+    simp only
+    unfold runWith
+    by_cases hh : s.help = true
+    · simp [hh, Outcome.result]
+    by_cases hv : s.version = true
+    · simp [hh, hv, Outcome.result]
+    by_cases hg : s.generate = true
+    · simp [hh, hv, hg, Outcome.result]
+    by_cases he : s.explain.isSome = true
+    · simp [hh, hv, hg, he, Outcome.result]
+    simp only [hh, hv, hg, he, Bool.false_eq_true, ↓reduceIte]
+    cases loadFailure i with
+    | some e => exact Or.inr rfl
+    | none =>
+      cases runRefurb i s with
+      | none => exact Or.inr rfl
+      | some items =>
+        simp only [Outcome.result]
+        rcases exitStatus_cases items with ⟨_, h⟩ | ⟨_, _, _, h⟩
+        · exact Or.inl h
+        · exact Or.inr h
+
+/-! ### (d) a bare `# noqa` is local -/
+
+/-- the diagnostic is reported on physical line `L` of file `F` -/
+def atLine (F : Str) (L : Nat) : Item → Bool
+  | .diag d => d.file == F && d.line.toNat == L
+  | .text _ => false
+
+/-- a file entry without its text -/
+def dropSource (f : FileIn) : FileIn := { f with source := [] }
+
+/-- the files of the two runs differ at most in their text -/
+def SameButSource (files files' : List FileIn) : Prop := files'.map dropSource = files.map dropSource
+
+theorem collected_dropSource (s : Settings) (cat : List CheckSel) (files : List FileIn) :
+    collected s cat (files.map dropSource) = collected s cat files := by
+  unfold collected
+  rw [List.flatMap_map]
+  rfl
+
+theorem sameButSource_collected (s : Settings) (cat : List CheckSel) (files files' : List FileIn)
+    (h : SameButSource files files') : collected s cat files' = collected s cat files := by
+  rw [← collected_dropSource s cat files', ← collected_dropSource s cat files, h]
+
+theorem sameButSource_relOf (files files' : List FileIn) (h : SameButSource files files') : relOf files' = relOf files := by
+  rw [← relOf_map files' dropSource (fun _ => rfl) (fun _ => rfl), ← relOf_map files dropSource (fun _ => rfl) (fun _ => rfl), h]
+
+/-- **(d) A bare `# noqa` on line `L` of file `F` removes exactly the diagnostics reported at (`F`, `L`)** from what
+    `run_refurb` returns and leaves every other item where it was — under the hypotheses of C08 `filter_exact`
+    (the comment is appended to a line free of `# noqa`, `get_source_lines` cuts both versions of the files where
+    Python does, diagnostics are reported on existing lines), for any selection, amend tables and `--sort`. -/
+theorem run_noqa_local (i : RunInput) (s : Settings) (files files' : List FileIn) (F : Str) (L : Nat) (g w : Str)
+    (S : Str → Nat → C08.Annot)
+    (hb : i.mypy = .built files) (hsame : SameButSource files files')
+    (hsane : C08.Sane i.lineCfg) (hann : C08.Annotated i.lineCfg (srcOf files) (srcOf files') S)
+    (hS : ∀ f n, S f n = if f = F ∧ n = L then .bare g w else .none)
+    (hr : C08.InRange (srcOf files) (collected s i.checks files)) :
+    runRefurb { i with mypy := .built files' } s = (runRefurb i s).map (List.filter (fun it => !atLine F L it)) := by
+  have hsup : (fun it => !C08.suppressedBy S it) = (fun it => !atLine F L it) := by
+    funext it
+    cases it with
+    | text t => rfl
+    | diag d =>
+      simp only [C08.suppressedBy, atLine, hS]
+      by_cases hc : d.file = F ∧ d.line.toNat = L
+      · simp [hc, C08.Annot.suppresses]
+      · simp only [hc, ↓reduceIte, C08.Annot.suppresses]
+        have : (d.file == F && d.line.toNat == L) = false := by
+          rw [Bool.and_eq_false_iff]
+          by_cases h1 : d.file = F
+          · right; simpa using fun h2 => hc ⟨h1, h2⟩
+          · left; simpa using h1
+        rw [this]
+  unfold runRefurb
+  simp only [hb, sameButSource_collected s i.checks files files' hsame]
+  rw [C08.filter_exact i.lineCfg hsane (sortByOf s) (srcOf files) (srcOf files') S _ hann _ hr, hsup]
+
+/-- **(d), on stdout**: the annotated run prints the rendering of the original run's items minus those at (`F`, `L`). -/
+theorem run_noqa_local_output (i : RunInput) (s : Settings) (files files' : List FileIn) (F : Str) (L : Nat) (g w : Str)
+    (S : Str → Nat → C08.Annot)
+    (hb : i.mypy = .built files) (hsame : SameButSource files files')
+    (hsane : C08.Sane i.lineCfg) (hann : C08.Annotated i.lineCfg (srcOf files) (srcOf files') S)
+    (hS : ∀ f n, S f n = if f = F ∧ n = L then .bare g w else .none)
+    (hr : C08.InRange (srcOf files) (collected s i.checks files)) (hl : i.loadError = none)
+    (out : Str) (e : Nat) (h : runWith i s = .printed out e) :
+    ∃ items, runRefurb i s = some items ∧ out = preambleOf i s ++ body i s items ∧
+      runWith { i with mypy := .built files' } s
+        = .printed (preambleOf i s ++ body i s (items.filter (fun it => !atLine F L it)))
+            (exitStatus (items.filter (fun it => !atLine F L it))) := by
+  obtain ⟨hh, hv, hg, he, items, hri, ho, _⟩ := runWith_printed_inv i s out e hl h
+  refine ⟨items, hri, ho, ?_⟩
+  have hloc := run_noqa_local i s files files' F L g w S hb hsame hsane hann hS hr
+  rw [hri] at hloc
+  have := runWith_printed { i with mypy := .built files' } s _ hh hv hg he hl hloc
+  rw [this]
+  simp only [preambleOf, body, filesOf, hb, sameButSource_relOf files files' hsame]
+
+/-! ### (e) the order of the file arguments -/
+
+/-- **(e) Permuting the files keeps the run**: same stdout, same exit status.  Needed: the file names identify the
+    files (`PathsIdentify`: two different entries of the list never carry the same path — then diagnostics of
+    different files never tie on the sort key, C11 `key_separates_files`, and ties inside one file keep their
+    traversal order by stability), and no `--debug` (the tree dumps are plain strings without a file name). -/
+theorem run_files_perm (i : RunInput) (s : Settings) (files files' : List FileIn)
+    (hb : i.mypy = .built files) (hp : files.Perm files') (hid : PathsIdentify files) (hd : s.debug = false) :
+    runRefurb { i with mypy := .built files' } s = runRefurb i s ∧
+      runWith { i with mypy := .built files' } s = runWith i s := by
+  have hrun : runRefurb { i with mypy := .built files' } s = runRefurb i s := by
+    unfold runRefurb
+    simp only [hb, ← srcOf_perm files files' hp hid]
+    unfold collected
+    symm
+    apply runReport_perm_blocks _ _ _ _ _ _ _ hp
+    intro f hf g hg hfg a ha b hb'
+    have hpath : f.path ≠ g.path := fun h => hfg (hid f hf g hg h)
+    unfold fileItems at ha hb'
+    simp only [hd, Bool.false_eq_true, ↓reduceIte, List.nil_append] at ha hb'
+    obtain ⟨ra, _, rfl⟩ := List.mem_map.mp ha
+    obtain ⟨rb, _, rfl⟩ := List.mem_map.mp hb'
+    have hsep := C11.key_separates_files (sortByOf s) (stamp f.path ra) (stamp g.path rb) hpath
+    unfold eqv
+    cases h1 : leItem (sortByOf s) (.diag (stamp f.path ra)) (.diag (stamp g.path rb)) with
+    | false => rfl
+    | true =>
+      cases h2 : leItem (sortByOf s) (.diag (stamp g.path rb)) (.diag (stamp f.path ra)) with
+      | false => rfl
+      | true => exact absurd ⟨h1, h2⟩ hsep
+  refine ⟨hrun, ?_⟩
+  have hlf : loadFailure { i with mypy := .built files' } = loadFailure i := by simp [loadFailure, hb]
+  have hpre : preambleOf { i with mypy := .built files' } s = preambleOf i s := by simp [preambleOf, hb]
+  have hbody : ∀ items, body { i with mypy := .built files' } s items = body i s items := by
+    intro items; simp only [body, filesOf, hb, ← relOf_perm files files' hp hid]
+  unfold runWith
+  rw [hrun, hlf, hpre]
+  simp only [hbody]
+
+end RefurbVerif.C10
+
+/-! ### Non-vacuity of the whole-run theorems -/
+
+namespace RefurbVerif.C10
+open RefurbVerif RefurbVerif.Run
+
+def demoCat : List CheckSel :=
+  [⟨"FURB", 123, ["readability"], true⟩, ⟨"FURB", 105, ["builtin"], true⟩, ⟨"XYZ", 100, [], false⟩]
+
+def demoA : FileIn :=
+  { path := "a.py".toList, rel := "a.py".toList, dump := "MypyFile:1(a.py)".toList
+    source := "x = int(0)\ny = str(\"\")  # noqa: FURB105\nprint(\"\")\n".toList
+    raw := [⟨1, 4, "FURB".toList, 123, "m1".toList⟩, ⟨1, 4, "XYZ".toList, 100, "probe".toList⟩,
+            ⟨3, 0, "FURB".toList, 105, "m2".toList⟩, ⟨2, 4, "FURB".toList, 123, "m3".toList⟩] }
+
+def demoB : FileIn :=
+  { path := "pkg/b.py".toList, rel := "pkg/b.py".toList, dump := "MypyFile:1(pkg/b.py)".toList
+    source := "print(\"\")  # noqa\nprint(\"\")\n".toList
+    raw := [⟨2, 0, "FURB".toList, 105, "m2".toList⟩, ⟨1, 0, "FURB".toList, 105, "m2".toList⟩] }
+
+def demoIn : RunInput :=
+  { envColor := false, argv := ["a.py", "pkg/b.py", "--enable-all", "--quiet"], config := .notFound, lineCfg := nlCfg
+    checks := demoCat, mypy := .built [demoA, demoB], resolver := Paths.resolvePy [] 16 ["w"] }
+
+def sAll : Settings := { enableAll := true, quiet := true, color := false }
+def sOne : Settings := { disableAll := true, enable := [{ cls := .code "FURB" 105 }], quiet := true, color := false }
+
+/-- the whole run, from argv to stdout: `# noqa` on line 1 of pkg/b.py and the FURB105-only comment on line 2 of a.py
+    are honoured, the disabled-by-default probe check reports under `--enable-all`, the report is sorted by file -/
+example : runMain demoIn =
+    ("a.py:1:5 [FURB123]: m1\na.py:1:5 [XYZ100]: probe\na.py:2:5 [FURB123]: m3\na.py:3:1 [FURB105]: m2\npkg/b.py:2:1 [FURB105]: m2\n".toList, 1) := by
+  decide +kernel
+
+theorem demo_same : SameButSelection sOne sAll := ⟨rfl, rfl, rfl, rfl, rfl, rfl, rfl, rfl, rfl, rfl, rfl⟩
+theorem demo_sub : ∀ c ∈ demoIn.checks, shouldLoad sOne c = true → shouldLoad sAll c = true := by decide
+/-- all hypotheses of (a) at once, on the demo project -/
+def demoFull : List Item :=
+  [.diag ⟨"a.py".toList, 1, 4, "FURB".toList, 123, "m1".toList⟩, .diag ⟨"a.py".toList, 1, 4, "XYZ".toList, 100, "probe".toList⟩,
+   .diag ⟨"a.py".toList, 2, 4, "FURB".toList, 123, "m3".toList⟩, .diag ⟨"a.py".toList, 3, 0, "FURB".toList, 105, "m2".toList⟩,
+   .diag ⟨"pkg/b.py".toList, 2, 0, "FURB".toList, 105, "m2".toList⟩]
+theorem demo_full : runRefurb demoIn sAll = some demoFull := by decide +kernel
+example : runRefurb demoIn sOne = some (demoFull.filter (itemLoaded sOne demoIn.checks)) :=
+  run_selection_is_filter demoIn sOne sAll demoFull demo_same demo_sub demo_full
+/-- (a) at work: the FURB105-only run prints the two FURB105 lines of the full run, in the same order -/
+example : runWith demoIn sOne = .printed "a.py:3:1 [FURB105]: m2\npkg/b.py:2:1 [FURB105]: m2\n".toList 1 := by decide +kernel
+
+/-- (b) at work: `--ignore FURB123` -/
+example : runWith demoIn (ignoreCode sAll "FURB" 123)
+    = .printed "a.py:1:5 [XYZ100]: probe\na.py:3:1 [FURB105]: m2\npkg/b.py:2:1 [FURB105]: m2\n".toList 1 := by decide +kernel
+example : (dropCode "FURB" 123 demoIn).checks.length = 2 := by decide
+
+/-- (c) at work: nothing loaded, nothing printed, exit status 0; an invalid option: one line, exit status 1 -/
+example : runWith demoIn { disableAll := true } = .printed [] 0 := by decide +kernel
+example : runMain { demoIn with argv := ["a.py", "--enable-all", "--disable-all"] }
+    = ("refurb: \"enable all\" and \"disable all\" can't be used at the same time\n".toList, 1) := by decide +kernel
+/-- mypy refusing a file: its line is printed as it is, exit status 1 -/
+example : runWith { demoIn with mypy := .failed ["refurb: can't read file 'nope.py': No such file or directory".toList] } sAll
+    = .printed "refurb: can't read file 'nope.py': No such file or directory\n".toList 1 := by decide +kernel
+
+/-- (e) at work -/
+theorem demo_paths : PathsIdentify [demoA, demoB] := by unfold PathsIdentify; decide
+example : runWith { demoIn with mypy := .built [demoB, demoA] } sAll = runWith demoIn sAll :=
+  (run_files_perm demoIn sAll [demoA, demoB] [demoB, demoA] rfl (List.Perm.swap demoB demoA []) demo_paths rfl).2
+example : runWith { demoIn with mypy := .built [demoB, demoA] } sAll = runWith demoIn sAll := by decide +kernel
+
+/-- (d): the hypotheses of `run_noqa_local` are satisfiable — C08's form-feed program (`ffBefore`/`ffAfter`: a bare
+    `# noqa` appended to line 3) as the one file of a run under the repaired line splitter -/
+def ffPath : Str := ['f', '.', 'p', 'y']
+
+def ffFile (src : Str) : FileIn :=
+  { path := ffPath, rel := ffPath, dump := [], source := src
+    raw := [⟨3, 4, "FURB".toList, 123, "m".toList⟩, ⟨4, 4, "FURB".toList, 123, "m".toList⟩] }
+
+def ffIn : RunInput := { demoIn with mypy := .built [ffFile C08.ffBefore] }
+
+def ffSAt : Str → Nat → C08.Annot := fun f n => if f = ffPath ∧ n = 3 then .bare [' ', ' '] [] else .none
+
+theorem ff_sameButSource : SameButSource [ffFile C08.ffBefore] [ffFile C08.ffAfter] := by
+  simp [SameButSource, dropSource, ffFile]
+
+theorem ff_run_annotated : C08.Annotated nlCfg (srcOf [ffFile C08.ffBefore]) (srcOf [ffFile C08.ffAfter]) ffSAt := by
+  have hsrc : ∀ src p, srcOf [ffFile src] p = if ffPath = p then src else [] := by
+    intro src p
+    simp only [srcOf, ffFile, List.find?_cons, List.find?_nil]
+    by_cases h : ffPath = p
+    · simp [h]
+    · have hb : (ffPath == p) = false := by simpa using h
+      simp [hb, h]
+  refine { lines := ?_, wf := ?_, free := ?_, agree := fun _ c _ => C08.nlCfg_splits c, agree' := fun _ c _ => C08.nlCfg_splits c }
+  · intro f
+    rw [hsrc, hsrc]
+    by_cases h : ffPath = f
+    · have hS : ffSAt f = C08.ffS := by
+        funext n; simp [ffSAt, C08.ffS, h.symm]
+      simp only [h, ↓reduceIte, hS]
+      exact C08.ff_annotated.lines []
+    · have hS : ffSAt f = fun _ => C08.Annot.none := by
+        funext n
+        have : ¬ (f = ffPath ∧ n = 3) := fun hc => h hc.1.symm
+        simp only [ffSAt]
+        rw [if_neg this]
+      simp only [h, ↓reduceIte, hS]
+      rfl
+  · intro f n
+    unfold ffSAt
+    split
+    · exact ⟨by decide, by simp⟩
+    · trivial
+  · intro f n l hne hl
+    unfold ffSAt at hne
+    split at hne
+    · rename_i hc
+      rw [hsrc] at hl
+      simp only [hc.1, ↓reduceIte] at hl
+      have h3 : C08.ffS (n + 1) ≠ .none := by simp [C08.ffS, hc.2]
+      exact C08.ff_annotated.free [] n l h3 hl
+    · exact absurd rfl hne
+
+theorem ff_run_inRange : C08.InRange (srcOf [ffFile C08.ffBefore]) (collected sAll ffIn.checks [ffFile C08.ffBefore]) := by
+  intro d hd
+  have : collected sAll ffIn.checks [ffFile C08.ffBefore]
+      = [.diag ⟨ffPath, 3, 4, "FURB".toList, 123, "m".toList⟩, .diag ⟨ffPath, 4, 4, "FURB".toList, 123, "m".toList⟩] := by
+    decide +kernel
+  rw [this] at hd
+  simp only [List.mem_cons, Item.diag.injEq, List.not_mem_nil, or_false] at hd
+  rcases hd with rfl | rfl <;> decide +kernel
+
+/-- all hypotheses of (d) at once -/
+example : runRefurb { ffIn with mypy := .built [ffFile C08.ffAfter] } sAll
+    = (runRefurb ffIn sAll).map (List.filter (fun it => !atLine ffPath 3 it)) :=
+  run_noqa_local ffIn sAll [ffFile C08.ffBefore] [ffFile C08.ffAfter] ffPath 3 [' ', ' '] [] ffSAt rfl ff_sameButSource
+    (by decide) ff_run_annotated (fun _ _ => rfl) ff_run_inRange
+
+/-- (d) at work: the comment on line 3 removes the diagnostic of line 3 and keeps the one of line 4 -/
+example : runWith ffIn sAll = .printed "f.py:3:5 [FURB123]: m\nf.py:4:5 [FURB123]: m\n".toList 1 := by decide +kernel
+example : runWith { ffIn with mypy := .built [ffFile C08.ffAfter] } sAll = .printed "f.py:4:5 [FURB123]: m\n".toList 1 := by
+  decide +kernel
 
 end RefurbVerif.C10
